@@ -38,10 +38,12 @@ class Ob:
 
 
 class Frame:
-    __slots__ = ('inst', 'fid', 'depth', 'live', 'addr_taken', 'noret', 'loops', 'rpo_idx', 'parent')
+    __slots__ = ('inst', 'fid', 'depth', 'live', 'addr_taken', 'noret', 'loops', 'rpo_idx', 'parent', 'memo_pos')
 
     def __init__(self, inst, fid, depth, parent=None):
         self.inst, self.fid, self.depth, self.parent = inst, fid, depth, parent
+        from . import mm
+        self.memo_pos = mm.memo_pos_local(inst)       # Two-Way small-period loops: the local holding `pos`
         self.live, self.addr_taken = liveness(inst)
         self.noret = no_return_blocks(inst)
         self.loops = inst.natural_loops()
@@ -750,6 +752,9 @@ class Interp:
                 st.store.add_le(ea - r.e * cb - (cb - 1))
             elif not rty['signed']:
                 st.store.add_le(r.e - ea)          # a / b <= a  for b >= 1
+                d = dict(st.ghost.get('divs', {}))
+                d[r.e.t[0][0]] = (st.store.nf(ea), st.store.nf(eb))      # ghost: r = floor(ea / eb)
+                st.ghost['divs'] = d
             return r
         if op in ('Shl', 'ShlUnchecked'):
             cb = st.store.const_value(eb)
@@ -1010,6 +1015,10 @@ class Interp:
             res = self.rvalue(fr, st, s['rv'], loc)
             out = []
             for s2, v in res:
+                if fr.memo_pos is not None and s['p']['l'] == fr.memo_pos and not s['p']['pr'] and isinstance(v, IntV):
+                    old = s2.frames.get(fr.fid, {}).get(fr.memo_pos)
+                    if isinstance(old, IntV):
+                        s2.ghost['memo_step'] = (fr.fid, s2.store.nf(v.e - old.e))      # size of the last move of `pos`
                 lv, tid = self.lv_of_place(fr, s2, s['p'], for_write=True)
                 self.store_lv(fr, s2, lv, v, tid, loc)
                 out.append(s2)
